@@ -4,6 +4,8 @@ package vh
 
 import (
 	"crypto/sha256"
+	"errors"
+	"strings"
 	"encoding/hex"
 	"encoding/json"
 	"fmt"
@@ -69,6 +71,33 @@ type Outcome struct {
 	Err          error  // property violation
 	Inconclusive string // non-empty: infrastructure/timing trouble, never a violation
 	Signature    string // optional stable identification of the failure (for known findings)
+	TimedOut     bool   // the failure is a wall-clock bound being hit (needs confirmation before it counts)
+}
+
+// Confirm re-runs a case whose only failure was a time bound with a larger bound: if it then
+// passes, the case is counted as inconclusive instead of as a violation.
+func Confirm(run func(mult int) Outcome) Outcome {
+	o := run(1)
+	if o.Err == nil || !o.TimedOut {
+		return o
+	}
+	o2 := run(4)
+	if o2.Err == nil {
+		o2.Inconclusive = "time bound hit on the first attempt only: " + o.Err.Error()
+	}
+	return o2
+}
+
+// IsTimeout reports whether err is a network/deadline timeout.
+func IsTimeout(err error) bool {
+	if err == nil {
+		return false
+	}
+	var ne interface{ Timeout() bool }
+	if errors.As(err, &ne) && ne.Timeout() {
+		return true
+	}
+	return strings.Contains(err.Error(), "i/o timeout") || strings.Contains(err.Error(), "deadline exceeded")
 }
 
 type failureFile struct {
